@@ -122,8 +122,14 @@ Expect(r) == CASE r.k = "out" -> [k |-> "out", pieces |-> r.pieces, log |-> r.lo
 RECURSIVE JoinNames(_)
 JoinNames(ns) == IF ns = <<>> THEN "" ELSE Head(ns) \o (IF Len(ns) > 1 THEN "," ELSE "") \o JoinNames(Tail(ns))
 
-EmitCase == res.k = "none" \/
+EmitOnce ==
             PrintT("CASE " \o ToJson([gen |-> "GenLoops",
                                        srcs |-> IF CanUnroll THEN [loop |-> Unparse(Prog), unrolled |-> Unparse(Unrolled)] ELSE [loop |-> Unparse(Prog)],
                                        data |-> it.data, shape |-> it.n \o ":" \o JoinNames(names), expect |-> Expect(res)]))
+            \* the same program twice in a row in one template: nothing of the first run may show in the second
+EmitTwice == it.n = "iterator" \/      \* (an Iterator supplied as data is used up by the first loop)
+            PrintT("CASE " \o ToJson([gen |-> "GenLoops", srcs |-> [twice |-> Unparse(Prog \o Prog)],
+                                       data |-> it.data, shape |-> it.n \o ":" \o JoinNames(names) \o ":twice",
+                                       expect |-> Expect(Run(Prog \o Prog, WithHelpers(it.data), EmptyScope, ""))]))
+EmitCase == res.k = "none" \/ (EmitOnce /\ EmitTwice)
 =============================================================================
